@@ -730,6 +730,7 @@ type rtpfbTarget struct {
 	cur     []byte
 	written int
 	lastHdr *rtp.Header
+	kept    []keptReport
 }
 
 func newRTPFBTarget(w *world) (*rtpfbTarget, error) {
@@ -838,7 +839,29 @@ func (t *rtpfbTarget) deliver(raw []byte, _ []rtcp.Packet, decs []*fbDec) {
 		rep = r
 	}
 	w.checkReport(rep)
+	// a consumer may keep a report (collect them, hand them to an estimator goroutine): it must
+	// still read the same after later feedback was processed
+	for i, k := range t.kept {
+		if len(k.live) != len(k.snap) {
+			continue
+		}
+		for j := range k.snap {
+			if k.live[j] != k.snap[j] {
+				w.viol("rtpfb/report-changed-after-it-was-returned",
+					"report #%d (returned %d reads ago, %d packet reports): entry %d was %+v when the Read returned and reads %+v after a later Read",
+					i, len(t.kept)-i, len(k.snap), j, k.snap[j], k.live[j])
+				t.kept = nil
+				return
+			}
+		}
+	}
+	if len(rep.PacketReports) > 0 && len(t.kept) < 8 {
+		t.kept = append(t.kept, keptReport{live: rep.PacketReports, snap: append([]rtpfb.PacketReport(nil), rep.PacketReports...)})
+		w.c.Add("rtpfb_reports_kept_and_rechecked_after_later_reads", 1)
+	}
 }
+
+type keptReport struct{ live, snap []rtpfb.PacketReport }
 
 // =====================================================================================
 // Oracle (a): cc.FeedbackAdapter.
